@@ -250,6 +250,8 @@ def _case(rng: Rng, tier, entry=None, force=None):
     elif entry.startswith("DenseFunctionalData"):
         cov = entry.endswith("covariance")
         m = rng.choice([7, 8, 10] if cov else [9, 13, 17, 25])
+        if cov and force.get("bigq"):
+            m = 6
         g = _gap_grid(rng, (rng.choice([33, 41]) if case.get("far") else rng.choice([17, 21, 25]))) if gap else _grid01(rng, m)
         nobs = rng.randint(3, 5) if (cov or entry.endswith("mean")) else rng.randint(1, 3)
         case["x"] = [rs(t) for t in _scale_pts(dom, g)]
@@ -269,6 +271,8 @@ def _case(rng: Rng, tier, entry=None, force=None):
         cov = entry.endswith("covariance")
         pooled = entry.endswith("mean") and (force.get("pooled") or rng.random() < 0.35)
         m = rng.choice([8, 9, 10] if cov else [11, 15, 21])
+        if cov and force.get("bigq"):
+            m = 8
         nobs = rng.randint(3, 5) if cov else rng.randint(2, 4)
         if pooled:
             # more than 2000 pooled observations (size threshold of the approximate mean), many curves sharing few locations
@@ -296,7 +300,30 @@ def _case(rng: Rng, tier, entry=None, force=None):
             case["variants"] = [["sub", Qs[1:3]], ["thin", Qs[::2]], ["single", [Qs[2]]], ["perm", [Qs[2], Qs[0], Qs[3], Qs[1]]], ["super", sorted(set(Qs) | {case["obs"][0]["t"][0]}, key=F)]]
             case["degree"] = rng.choice([1, 2])
             case["hu"] = rs(rng.choice([Fraction(3, 4), Fraction(1)]))
-    if method == "LP" and not entry.startswith(("PSplines", "LocalPolynomial")) and not two_d and not gap and dom in ("unit", "end0") and rng.random() < 0.5:
+    # query-set SIZES around typical thresholds (101/102, 129, 257 points per direction), data kept tiny
+    if entry.endswith("covariance") and (force.get("bigq") or rng.random() < 0.12):
+        N = 102 if method == "LP" else rng.choice([102, 129])
+        k0 = rng.randint(20, 60)
+        Qb = [Fraction(k, 256) for k in range(k0, k0 + N)]
+        case["bigq"] = N
+        case["Q"] = [rs(t) for t in _scale_pts(dom, Qb)]
+        pick = lambda v: [rs(t) for t in _scale_pts(dom, v)]  # noqa: E731
+        case["variants"] = [["few", pick(Qb[3::20][:6])], ["every5th", pick(Qb[::5])], ["single", pick([Qb[N // 2]])], ["pair", pick([Qb[1], Qb[-2]])]]
+        if method == "PS":
+            case["variants"].append(["first101", pick(Qb[:101])])
+        if method == "LP":
+            case["degree"], case["hu"] = 1, rs(Fraction(3, 4))
+    elif not two_d and not entry.endswith("covariance") and not case.get("pooled") and (force.get("many") or rng.random() < 0.2):
+        N = rng.choice([102, 129, 257] if method == "PS" else [102, 129])
+        base = set(F(t) for t in case["Q"])
+        lo_, sc_ = _domain(dom)
+        k = 1
+        while len(base) < N:
+            base.add(lo_ + sc_ * Fraction(k, 1024))
+            k += 1023 // N
+        case["variants"].append(["many", [rs(t) for t in sorted(base)]])
+        case["many"] = N
+    if method == "LP" and not entry.startswith(("PSplines", "LocalPolynomial")) and not two_d and not gap and not case.get("bigq") and dom in ("unit", "end0") and rng.random() < 0.5:
         case["default_bw"] = True  # the entry point's own default bandwidth (a function of the DATA, not of the query set)
     return case
 
@@ -312,6 +339,9 @@ def gen_cases(rng: Rng, tier):
                 k += 1
     for method in ("PS", "LP"):
         yield _case(rng, tier, "IrregularFunctionalData.mean", dict(method=method, dom=rng.choice(["unit", "end0", "doy"]), nonconst=True, pooled=True))
+        k += 1
+    for entry, method in (("DenseFunctionalData.covariance", "LP"), ("IrregularFunctionalData.covariance", "LP"), ("DenseFunctionalData.covariance", "PS")):
+        yield _case(rng, tier, entry, dict(method=method, dom=rng.choice(["unit", "doy"]), nonconst=True, bigq=True))
         k += 1
     for entry, method in (("DenseFunctionalData.smooth2d", "LP"), ("DenseFunctionalData.smooth2d", "PS"), ("PSplines.predict2d", "PS")):
         yield _case(rng, tier, entry, dict(method=method, nonconst=True, int_axis0=True))
@@ -577,8 +607,9 @@ def run_impl(case):
                          for r in (fits if method == "PS" else lps)]
             out["calls"].append(c)
         # history on one object: the base query set again, after all the other calls
-        out["repeat"] = np.asarray(call(_dargs(calls[0][1], calls[0][2], case)).values).tolist()
-        rec.take()
+        if not (case.get("bigq") and method == "LP"):
+            out["repeat"] = np.asarray(call(_dargs(calls[0][1], calls[0][2], case)).values).tolist()
+            rec.take()
         # evaluating at the original sampling points returns the fitted curve
         if what in ("smooth", "mean") and entry.startswith("DenseFunctionalData"):
             out["none"] = np.asarray(call(None).values).tolist()
@@ -644,6 +675,16 @@ def _default_bandwidth(case):
     return float(np.mean(sizes) ** (-1 / 5))
 
 
+def _modelled(case, p1, p2):
+    """Is this call evaluated by the (exact, hence expensive) model?  Large query sets are checked by the oracle only."""
+    what = case["entry"].split(".")[1]
+    if what == "covariance":
+        return len(p1) <= 12
+    if p2 is not None:
+        return len(p1) * len(p2) <= 150
+    return len(p1) <= (300 if case["method"] == "PS" else 140)
+
+
 def _requested(case):
     """The smoothing options the case asked for (what the model uses; the data / coefficients are the captured ones)."""
     what = case["entry"].split(".")[1]
@@ -666,7 +707,7 @@ def model_lines(case, impl):
     what = case["entry"].split(".")[1]
     req = _requested(case)
     for ci, (c, (nm, p1, p2)) in enumerate(zip(impl["calls"], _calls(case))):
-        if "err" in c:
+        if "err" in c or not _modelled(case, p1, p2):
             continue
         if "fits" in c:
             for f in c["fits"]:
@@ -747,7 +788,7 @@ def compare(case, impl, model):
     k = 0
     worst = 0.0
     for ci, (c, (nm, p1, p2)) in enumerate(zip(impl["calls"], _calls(case))):
-        if "err" in c:
+        if "err" in c or not _modelled(case, p1, p2):
             continue
         flat = _flat(case, ci, c["vals"])
         if "fits" in c:
@@ -850,8 +891,9 @@ def oracle(case, impl):
             if loc in base and abs(v - base[loc]) > tol:
                 same_range = (min(map(F, calls[ci][1])) == min(map(F, calls[0][1]))) and (max(map(F, calls[ci][1])) == max(map(F, calls[0][1])))
                 clause = "permutation" if nm == "perm" else "query_set_independence"
-                bad(clause, f"[{case['method']}] value at {loc} is {base[loc]!r} when requested within Q={calls[0][1]}"
-                            f"{' x ' + str(calls[0][2]) if calls[0][2] else ''} but {v!r} within '{nm}'={calls[ci][1]}{' x ' + str(calls[ci][2]) if calls[ci][2] else ''}",
+                sh = lambda v: str(v) if len(v) <= 10 else f"[{', '.join(map(repr, v[:4]))}, … {len(v)} points … {v[-1]!r}]"  # noqa: E731
+                bad(clause, f"[{case['method']}] value at {loc} is {base[loc]!r} when requested within Q={sh(calls[0][1])}"
+                            f"{' x ' + sh(calls[0][2]) if calls[0][2] else ''} but {v!r} within '{nm}'={sh(calls[ci][1])}{' x ' + sh(calls[ci][2]) if calls[ci][2] else ''}",
                     ["query_range_differs"] if not same_range else ["same_query_range"])
     # partition of unity + non-negativity of the B-splines: inside the fit domain a P-spline prediction lies between the
     # smallest and the largest coefficient of the fit (C07.predict_between_min_max; tensor products likewise)
@@ -936,6 +978,8 @@ def classify(case, impl):
         tags.append("default-bandwidth")
     if case.get("pooled"):
         tags.append("pooled>2000")
+    if case.get("bigq") or case.get("many"):
+        tags.append(f"query-size:{case.get('bigq') or case.get('many')}")
     if case.get("gap"):
         tags.append("gaussian-far-4..10h" if case.get("far") else "gap>2h")
     if case.get("int_axis0"):
